@@ -3,6 +3,8 @@
 # non-zero exit (a VIOLATION on the unchanged tree is either a genuine defect or a false alarm: both
 # need attention).  usage: tools/soak.sh [rounds] [jobs] [seed base]
 cd "$(dirname "$0")/.."
+# under `vp run --with-repo` the snapshot of /repo is the tree to check
+[ -n "$VP_RUN_REPO" ] && export VERIF_REPO="$VP_RUN_REPO"
 ROUNDS=${1:-6}; JOBS=${2:-8}; BASE=${3:-7}
 for r in $(seq 1 $ROUNDS); do
   for c in C01 C02 C03 C04 C05 C06 C07 C08 C09 C10 C11 C12 C13 C14 C15 C16 C17 C18 C20; do
